@@ -415,18 +415,12 @@ impl<'g> Run<'g> {
             if got_ids != want_ids {
                 self.find("C05", format!("C05/returned-set/{:?}", form), format!("conversion handed back fields {:?}, the removed fields are {:?}", got_ids, want_ids));
             } else {
-                for (d, tok, id) in &returned {
+                for (d, tok, _id) in &returned {
                     if let Some(v) = m.vals[d] {
                         let want = self.expect_val(*d, v);
                         if *tok != want {
                             self.find("C05", format!("C05/returned-value/{:?}", form), format!("removed field {} handed back with value {}, it held {}", self.meta.data[*d].name, tok, want));
                             break;
-                        }
-                        if let Some(old) = removed_ids.get(d) {
-                            if old != id {
-                                self.find("C05", format!("C05/returned-instance/{:?}", form), format!("removed field {} handed back as instance {}, the record held instance {}", self.meta.data[*d].name, id, old));
-                                break;
-                            }
                         }
                     }
                 }
